@@ -14,8 +14,9 @@ CHECK = dict(
         dict(name="dnssvc", dir="internal/dnssvc", src=["C10/fixture", "C10/dnssvc"], runs=[
             dict(name="access", run="^TestVerifC10Access$", quick=12000, thorough=400000, shards_quick=2, shards_thorough=8),
             dict(name="race", run="^TestVerifC10Access$", quick=1500, thorough=40000, shards_thorough=4, race=True),
-            dict(name="realgeoip", run="^TestVerifC10RealGeoIP$", quick=600, thorough=20000, shards_thorough=4),
-            dict(name="realgeoiprace", run="^TestVerifC10RealGeoIP$", quick=300, thorough=6000, shards_thorough=2, race=True),
+            dict(name="realgeoip", run="^TestVerifC10RealGeoIP$", quick=1000, thorough=30000, shards_thorough=4),
+            dict(name="realgeoiprace", run="^TestVerifC10RealGeoIP$", quick=400, thorough=6000, shards_thorough=2, race=True),
+            dict(name="realgeoiprefresh", run="^TestVerifC10RealGeoIPRefresh$", quick=800, thorough=16000, shards_thorough=4),
         ]),
         dict(name="cmd", dir="internal/cmd", src="C10/cmd", runs=[
             dict(name="access-config", run="^TestVerifC10CmdAccess$", quick=3000, thorough=120000, shards_quick=2, shards_thorough=6),
